@@ -1,6 +1,7 @@
 //! Verification harness for SwiftMTMessage: replays TLC-generated behaviours against the
 //! library built from /repo's working tree and records traces for TLC to validate.
 
+mod c10;
 mod c12;
 mod c13;
 mod c16;
@@ -24,6 +25,7 @@ fn main() {
         "split" => c16::run_split(rest),
         "classify" => c17::run(rest),
         "dispatch" => c12::run(rest),
+        "envelope" => c10::run(rest),
         "validate" => c13::run(rest),
         "parse1" => {
             // parse one full message (file) as type --mt and print the outcome
